@@ -172,6 +172,30 @@ def sequential_events(rnd: random.Random, q: bool) -> list:
         evs.append({"op": "ident", "what": "tzdb[" + i + "]", "same": tz[i] is first[i] and tz.get_zone_or_none(i) is first[i]})
     for cid in CalendarSystem.ids:
         evs.append({"op": "ident", "what": "calendar " + cid, "same": CalendarSystem.for_id(cid) is CalendarSystem.for_id(cid)})
+    # an alias and its canonical id, asked in either order on fresh providers: each lookup answers a zone with the id asked for,
+    # the same object every time
+    try:
+        import io as _io
+
+        from harness.core import REPO as _REPO
+        from pyoda_time.time_zones import DateTimeZoneCache as _DZC0
+        from pyoda_time.time_zones._tzdb_date_time_zone_source import TzdbDateTimeZoneSource as _Src0
+
+        raw0 = (_REPO / "pyoda_time/time_zones/Tzdb.nzd").read_bytes()
+        src0 = _Src0.from_stream(_io.BytesIO(raw0))
+        pairs = [(a, c) for a, c in src0.canonical_id_map.items() if a != c]
+        for order in (0, 1):
+            prov0 = _DZC0(_Src0.from_stream(_io.BytesIO(raw0)))
+            for a, c in rnd.sample(pairs, min(len(pairs), 25 if q else 200)):
+                seq = [c, a, c, a] if order == 0 else [a, c, a, c]
+                seen0: dict = {}
+                ok = True
+                for zid in seq:
+                    z0 = prov0[zid]
+                    ok = ok and z0.id == zid and seen0.setdefault(zid, z0) is z0
+                evs.append({"op": "ident", "what": f"alias {a} and {c}, {'canonical' if order == 0 else 'alias'} first", "same": ok})
+    except Exception as e:  # noqa: BLE001
+        evs.append({"op": "ident", "what": "alias order: " + type(e).__name__, "same": False})
     # 3b. calendar systems are one object per id whatever route and order they are asked for in: for_id, the class properties,
     #     the parameterised factories, a date's own calendar and the ordinal table, in shuffled histories
     from pyoda_time.calendars import HebrewMonthNumbering, IslamicEpoch, IslamicLeapYearPattern
